@@ -19,6 +19,9 @@ EXPLANATION = (
   "styles, animation steps; document parameters and initial values), so a clone renders like its original; (ORD-anim) a function that "
   "concludes from specified style values that a region paints nothing consults the region's animation steps before returning False; "
   "(STATE) snapshot code keeps no module- or class-level mutable state, the interval/activity caches are created per call."
+  " (READ-COVER) as in C02 for the region-background predicate;"
+  " (PUR, IMSC writer) the from_model functions of the IMSC writer never call a mutator on the source document or its elements;"
+  " (STATE-alias / STATE-global) no function of the anchored modules mutates a module- or class-level container, rebinds module / class state or mutates a mutable default argument, so a result never depends on earlier calls;"
 )
 RULE_TEXT = "per mutator call / mutating call argument, per copy_to variant x field, per early return, per module-level store"
 UNDECIDED = ["equality of cached and uncached results over all documents and times", "equality of repeated calls as values",
